@@ -518,6 +518,13 @@ def pipe_keys(inst):
     inst["_same"] = same
     if same or alg[0] == "Nearest":
         return None, None
+    if alg[0] == "SuperSampling" and inst.get("expect") == "nearest":
+        # documented two-step: nearest-neighbour to round(crop/factor), then convolution; here the
+        # intermediate has exactly the destination size, so the second step must be a plain copy
+        factor = min(cw / dw, ch / dh) / alg[2]
+        assert factor > 1.2 and round(cw / factor) == dw and round(ch / factor) == dh, "not an intermediate==dst case"
+        inst["_ss_bytes"] = dw * dh
+        return None, None
     adaptive = alg[0] != "Interpolation"
     need_h = float(dw) != cw or l != round(l)
     need_v = float(dh) != ch or t != round(t)
@@ -639,13 +646,14 @@ def emit_p(inst, real):
     if grow:
         b.append("    let mut rz = new_resizer(CpuExtensions::%s);" % inst["cpu"])
     else:
-        b.append("    let mut rz = resizer_with_scratch::<%d, %d, 0>(CpuExtensions::%s);" % (
-            alpha_bytes + (scratch if alpha_bytes else 0), conv_bytes + (scratch if conv_bytes else 0), inst["cpu"]))
+        ss_bytes = inst.get("_ss_bytes", 0) * size + (size if inst.get("_ss_bytes") else 0)
+        b.append("    let mut rz = resizer_with_scratch::<%d, %d, %d>(CpuExtensions::%s);" % (
+            alpha_bytes + (scratch if alpha_bytes else 0), conv_bytes + (scratch if conv_bytes else 0), ss_bytes, inst["cpu"]))
     b.append("    rz.resize_typed(&src_img, &mut dst_img, &opts)")
     b.append("};")
     b.append('assert!(res.is_ok(), "P: a valid resize returns Ok");')
     b.append('assert!(verif_api::injected_pending() == (0, 0), "P: exactly the expected passes were computed (no resampling along a dimension that matches)");')
-    if inst["alg"][0] == "Nearest" and not (hk is None and vk is None and inst.get("_same")):
+    if (inst["alg"][0] == "Nearest" or inst.get("expect") == "nearest") and not (hk is None and vk is None and inst.get("_same")):
         ix, ixa, iy, iya = [], [], [], []
         for x in range(dw):
             f, near, alt = ideal.nearest_index(l, cw, dw, x)
@@ -801,6 +809,8 @@ def gen_c12(tier, seed):
     p_add(insts, "C12", "copy_u16_nearest_alpha", "quick", "U16x2", "Sse4_1", 3, 2, 2, 2, (1, 0, 2, 2), ("Nearest",), alpha=True)
     # one matching dimension: no resampling along it
     p_add(insts, "C12", "width_same_u8", "quick", "U8", "None", 3, 4, 3, 2, None, ("Convolution", "Bilinear"))
+    # SuperSampling whose nearest-neighbour intermediate happens to have the destination size
+    p_add(insts, "C12", "ss_intermediate_is_dst_u8", "quick", "U8", "None", 4, 4, 2, 2, None, ("SuperSampling", "Box", 1), expect="nearest")
     p_add(insts, "C12", "height_same_u16_crop", "quick", "U16", "None", 5, 4, 2, 2, (1, 1, 4, 2), ("Interpolation", "Bilinear"))
     if tier == "thorough":
         k = 0
